@@ -1287,6 +1287,11 @@ func (c *Client) readSlices() (message, topic []byte, err error) {
 				if err != nil {
 					return nil, nil, err
 				}
+				err = c.ackDupe()
+				if err != nil {
+					c.toOffline()
+					return nil, nil, err
+				}
 				continue
 			}
 
@@ -1316,7 +1321,8 @@ func (c *Client) readSlices() (message, topic []byte, err error) {
 				return message, topic, nil
 			}
 			if err == errDupe {
-				err = nil // can just skip
+				// can just skip
+				err = c.ackDupe()
 			}
 		case typePUBACK:
 			err = c.onPUBACK()
@@ -1386,6 +1392,17 @@ func (e *BigMessage) ReadAll() ([]byte, error) {
 
 var errDupe = errors.New("mqtt: duplicate reception")
 
+// AckDupe confirms the retransmission of a message which was received already,
+// conform pendingAck from onPUBLISH. Ownership was taken the first time.
+func (c *Client) ackDupe() error {
+	err := c.writeNoWait(c.pendingAck)
+	if err != nil {
+		return err // keeps pendingAck to retry
+	}
+	c.pendingAck = c.pendingAck[:0]
+	return nil
+}
+
 // OnPUBLISH slices an inbound message from Client.peek.
 func (c *Client) onPUBLISH(head byte) (message, topic []byte, err error) {
 	if len(c.peek) < 2 {
@@ -1432,6 +1449,13 @@ func (c *Client) onPUBLISH(head byte) (message, topic []byte, err error) {
 			return nil, nil, err
 		}
 		if bytes != nil {
+			// “… the receiver MUST respond with a PUBREC containing
+			// the Packet Identifier from the incoming PUBLISH Packet”
+			// — MQTT Version 3.1.1, conformance statement MQTT-4.3.3-2
+			if len(c.pendingAck) != 0 {
+				return nil, nil, fmt.Errorf("mqtt: internal error: ack %#x pending during PUBLISH exactly once reception", c.pendingAck)
+			}
+			c.pendingAck = append(c.pendingAck, typePUBREC<<4, 2, byte(packetID>>8), byte(packetID))
 			return nil, nil, errDupe
 		}
 
